@@ -139,6 +139,7 @@ inductive Pc
   | closeOwn | oDecd | oRemoved
   | doStart | doListed | doPended | doActived | doRolled | doEvicted | doRemoved
   | done
+  | createdU  -- variant `pendFirst = false` only: table file created, pending mark not yet set
 deriving DecidableEq, Repr, Inhabited
 
 structure Job where
@@ -166,6 +167,9 @@ structure Cfg where
   cloneLocked : Bool := true -- CommitFamilyEditLog takes its snapshot and clones INSIDE the version-set mutex
   allocLocked : Bool := true -- storeVersionSet.NextFileNumber takes the version-set mutex
   findErrReleases : Bool := false -- snapshot.FindReaders' error path calls ReleaseReaders on readers it leaves in s.readers
+  pendFirst : Bool := true   -- family.newTableBuilder marks the number pending BEFORE it creates the table file
+  closeCAS : Bool := true    -- snapshot.Close is guarded by closed.CompareAndSwap(false, true)
+  getReaderAtomic : Bool := true -- storeCache.GetReader looks up, opens and retains in ONE critical section
   threshold : Nat := 2    -- FamilyOption.CompactThreshold
   rollupOn : Bool := false -- StoreOption.Rollup non-empty: a flush marks its output for rollup
   /-- the family's merger (kv.Merger): what a compaction writes for the contents of its inputs.
@@ -263,6 +267,12 @@ def jAlloc (s : St) (j : Nat) (c : Content) (level : Nat) : St :=
     { s.job j with out := some { no := s.nextFile, level := level, minKey := contentMin c, maxKey := contentMax c }
                    pc := .allocd }
 
+/-- variant `pendFirst = false`: the number is handed out, nothing is marked yet -/
+def jAllocU (s : St) (j : Nat) (c : Content) (level : Nat) : St :=
+  { s with nextFile := s.nextFile + 1, content := upd s.content s.nextFile c
+           job := upd s.job j { s.job j with out := some { no := s.nextFile, level := level, minKey := contentMin c, maxKey := contentMax c }
+                                             pc := .allocd } }
+
 def createFiles (s : St) (fs : List Nat) : St := { s with disk := fs ++ s.disk }
 
 /-- `table.NewStoreBuilder`: the table file appears in the directory. For a compaction the edit
@@ -273,6 +283,18 @@ def jCreate (cfg : Cfg) (s : St) (j : Nat) : St :=
     | .flush => { adds := b.out.toList, rollAdd := if cfg.rollupOn then outNo b else [] }
     | _ => { dels := b.inputs.map (fun m => (m.level, m.no)), adds := b.out.toList }
   (createFiles s (outNo b)).setJob j { b with edit := e, pc := .ready }
+
+/-- variant `pendFirst = false`: `table.NewStoreBuilder` first … -/
+def jCreateU (s : St) (j : Nat) : St :=
+  (createFiles s (outNo (s.job j))).setJob j { s.job j with pc := .createdU }
+
+/-- … `addPendingOutput` afterwards (the edit log is built as in `jCreate`) -/
+def jPendU (cfg : Cfg) (s : St) (j : Nat) : St :=
+  let b := s.job j
+  let e : Edit := match b.kind with
+    | .flush => { adds := b.out.toList, rollAdd := if cfg.rollupOn then outNo b else [] }
+    | _ => { dels := b.inputs.map (fun m => (m.level, m.no)), adds := b.out.toList }
+  { s with pending := outNo b ++ s.pending, job := upd s.job j { b with edit := e, pc := .ready } }
 
 def setLock (s : St) (l : Option Nat) : St := { s with lock := l }
 
@@ -404,15 +426,21 @@ def jstep (cfg : Cfg) (s : St) (j : Nat) : Option St :=
     match b.pc with
     | .start =>
       match b.kind with
-      | .flush => if cfg.allocLocked = true → s.lock = none then some (jAlloc s j b.payload 0) else none
+      | .flush =>
+        if cfg.allocLocked = true → s.lock = none then
+          some (if cfg.pendFirst then jAlloc s j b.payload 0 else jAllocU s j b.payload 0)
+        else none
       | .compact => if s.compacting then none else some (jStartCompact cfg s j)
       | .rollupDone => some (s.setJob j { b with edit := { rollDel := b.payload.map (·.1) }, pc := .ready })
       | .delObs => some (setPc s j .doStart)
     | .picked => some (jPicked s j)
     | .reading => some (jRead s j)
     | .merging =>
-      if cfg.allocLocked = true → s.lock = none then some (jAlloc s j (cfg.merge (b.inputs.map (fun m => s.content m.no))) 1) else none
-    | .allocd => some (jCreate cfg s j)
+      if cfg.allocLocked = true → s.lock = none then
+        some (if cfg.pendFirst then jAlloc s j (cfg.merge (b.inputs.map (fun m => s.content m.no))) 1
+              else jAllocU s j (cfg.merge (b.inputs.map (fun m => s.content m.no))) 1)
+      else none
+    | .allocd => some (if cfg.pendFirst then jCreate cfg s j else jCreateU s j)
     | .ready =>
       if b.edit.isEmpty then some (setPc s j .cUnlocked)
       else if cfg.cloneLocked then (if s.lock = none then some (jLock s j) else none)
@@ -452,6 +480,7 @@ def jstep (cfg : Cfg) (s : St) (j : Nat) : Option St :=
       | [] => none
       | f :: rest => some (doRemove s j f rest)
     | .done => none
+    | .createdU => some (jPendU cfg s j)
   else none
 
 /-! ### actions and runs -/
@@ -467,12 +496,22 @@ inductive Act
   | jstep (j : Nat)
   | cleanup (fs : List Nat)      -- storeCache.Cleanup closing the entries fs
   | findErrRelease (i : Nat) (fs : List Nat)  -- variant only: FindReaders' error path releases fs, s.readers keeps them
+  | sDec2 (i : Nat)              -- variant `closeCAS = false` only: a second Close() on a snapshot whose first Close has
+                                 --   not stored the closed flag yet runs `version.Release` again
+  | getReaderNoRetain (i f : Nat) -- variant `getReaderAtomic = false` only: GetReader lost the open race and returns the
+                                 --   cached reader without `retain()`
 deriving Repr
 
 def cleanFiles (s : St) (fs : List Nat) : St := { s with cref := cleanup s.cref fs }
 
 def spawnJob (s : St) (k : JKind) (p : Content) : St :=
   { s with job := upd s.job s.nJob { kind := k, pc := .start, payload := p }, nJob := s.nJob + 1 }
+
+/-- a Close() of the snapshot is in progress and has not finished -/
+def SnapSt.closing : SnapSt → Bool
+  | .decd _ => true
+  | .removed => true
+  | _ => false
 
 /-- a reader may touch snapshot `i` (it is its own and in the right state) -/
 def readerSnap (s : St) (i : Nat) : Bool := i < s.nSnap && (s.snap i).owner.isNone
@@ -502,6 +541,16 @@ def step (cfg : Cfg) (s : St) : Act → Option St
     -- once, by Close. The variant releases them here as well.
     if cfg.findErrReleases && readerSnap s i && (s.snap i).st = .opened && fs.all (fun f => (s.snap i).held.contains f) then
       some { s with cref := releaseAll s.cref fs }
+    else none
+  | .sDec2 i =>
+    -- With the CAS guard a second Close() is a no-op (no step at all).
+    if !cfg.closeCAS && readerSnap s i && (s.snap i).st.closing then
+      some { s with ref := upd s.ref (s.snap i).ver (s.ref (s.snap i).ver - 1) }
+    else none
+  | .getReaderNoRetain i f =>
+    if !cfg.getReaderAtomic && readerSnap s i && (s.snap i).st = .opened && (s.cref f).isSome
+        && ((s.ver (s.snap i).ver).nos.contains f) then
+      some (s.setSnap i { s.snap i with held := f :: (s.snap i).held })
     else none
 
 def run (cfg : Cfg) (s : St) : List Act → Option St
@@ -569,6 +618,8 @@ def commit : List String :=
 (one `getReader` step each); the error path does nothing else -/
 def findReaders : List String := ["version.FindFiles", "fileMeta.GetFileNumber", "Table", "cache.GetReader", "append", "append"]
 def findReadersErrPath : List String := []
+/-- `snapshot.Close`: the whole release is inside `if s.closed.CompareAndSwap(false, true)` -/
+def snapshotCloseShape : List String := ["if(closed-cas)", "version.Release", "cache.ReleaseReaders", "endif"]
 def nextFileNumber : List String := ["mutex.Lock", "defer:mutex.Unlock", "nextFileNumber.Inc"]
 /-- `family.rollup` (source side): the `DeleteRollupFile` records of a target are created only after
 that target's `doRollupWork` succeeded; the commit follows the loop; deleteObsoleteFiles is
